@@ -55,6 +55,11 @@ func ProbeFixes(lim limits) Fixes {
 	d.Acts = []Act{{Call: 0, Act: "empty"}, {Call: 1, Act: "empty"}}
 	o = Run(probeCase(lim, []Rec{rec(0), rec(1)}, []Proc{}, d))
 	f.EmptyAck = o.Term == "err"
+	// a processor error the DLQ does not absorb (window of 1, threshold 0)
+	pc := probeCase(lim, []Rec{rec(0)}, []Proc{{Replies: []Reply{{Kinds: ks("err")}}}}, plainDest())
+	pc.DlqSize, pc.DlqThr = 1, 0
+	o = Run(pc)
+	f.ProcFatal = o.Term == "err" && o.Fatal
 	// nack of a piece whose run holds a filtered piece
 	d = plainDest()
 	d.Fail, d.Chunks = [][]int{{0, 1}, {1}}, []int{1}
